@@ -1,8 +1,11 @@
 package scn
 
 import (
+	"io"
+
 	"context"
 	"fmt"
+	"github.com/sirupsen/logrus"
 	"sort"
 	"strings"
 	"time"
@@ -181,6 +184,13 @@ func scriptRoutine(script int) keyed.Routine {
 // keyedHistory enumerates every operation sequence of the given depth on Keyed.
 func keyedHistory(depth int) func() { return keyedHistoryOpt(depth, false) }
 
+// discardLogger is a logrus entry writing nowhere (the WithLogger constructors).
+func discardLogger() *logrus.Entry {
+	le := logrus.NewEntry(logrus.New())
+	le.Logger.SetOutput(io.Discard)
+	return le
+}
+
 // keyedHistoryOpt: with negDelay the release delay is always configured, as a negative duration
 // (documented to mean its magnitude).
 func keyedHistoryOpt(depth int, negDelay bool) func() {
@@ -198,10 +208,16 @@ func keyedHistoryOpt(depth int, negDelay bool) func() {
 			opts = append(opts, keyed.WithReleaseDelay[string, int](delayArg))
 		}
 		ctors := 0
-		k := keyed.NewKeyed(func(key string) (keyed.Routine, int) {
+		ctor := func(key string) (keyed.Routine, int) {
 			ctors++
 			return scriptRoutine(script), ctors
-		}, opts...)
+		}
+		var k *keyed.Keyed[string, int]
+		if negDelay && vsched.Choose(2) == 1 {
+			k = keyed.NewKeyedWithLogger(ctor, discardLogger(), opts...) // the other constructor: same options
+		} else {
+			k = keyed.NewKeyed(ctor, opts...)
+		}
 		if ctxSet {
 			k.SetContext(context.Background(), false)
 		}
@@ -264,9 +280,12 @@ func keyedHistoryOpt(depth int, negDelay bool) func() {
 }
 
 // keyedRefHistory enumerates every operation sequence of the given depth on KeyedRefCount.
-func keyedRefHistory(depth int) func() {
+func keyedRefHistory(depth int) func() { return keyedRefHistoryOpt(depth, false) }
+
+// keyedRefHistoryOpt: with logger the container is built by NewKeyedRefCountWithLogger and always has a release delay.
+func keyedRefHistoryOpt(depth int, logger bool) func() {
 	return func() {
-		delay := vsched.Choose(2) == 1
+		delay := logger || vsched.Choose(2) == 1
 		ctxSet := vsched.Choose(2) == 1
 		script := vsched.Choose(3)
 		m := newKModel(delay, ctxSet, script)
@@ -275,10 +294,16 @@ func keyedRefHistory(depth int) func() {
 			opts = append(opts, keyed.WithReleaseDelay[string, int](time.Second))
 		}
 		ctors := 0
-		k := keyed.NewKeyedRefCount(func(key string) (keyed.Routine, int) {
+		ctor := func(key string) (keyed.Routine, int) {
 			ctors++
 			return scriptRoutine(script), ctors
-		}, opts...)
+		}
+		var k *keyed.KeyedRefCount[string, int]
+		if logger {
+			k = keyed.NewKeyedRefCountWithLogger(ctor, discardLogger(), opts...)
+		} else {
+			k = keyed.NewKeyedRefCount(ctor, opts...)
+		}
 		if ctxSet {
 			k.SetContext(context.Background(), false)
 		}
@@ -377,7 +402,7 @@ func init() {
 	})
 	eng.Register(&eng.Scenario{
 		Name: "keyed-history-negdelay", Props: []string{"C06"}, Det: true, Manual: true, NoRace: true, ObsNames: ops,
-		Doc:   "Keyed: as keyed-history with sequences of 4 operations and the release delay configured as a negative duration (documented to mean its magnitude)",
+		Doc:   "Keyed: as keyed-history with sequences of 4 operations and the release delay configured as a negative duration (documented to mean its magnitude), built by NewKeyed or NewKeyedWithLogger (choice)",
 		Quick: eng.Bounds{PB: 0}, Thorough: eng.Bounds{PB: 0},
 		Body: keyedHistoryOpt(4, true),
 	})
@@ -392,6 +417,12 @@ func init() {
 		Doc:   "KeyedRefCount: every sequence of 6 operations over {AddKeyRef(a|b), Release(ref 0|1|2) (repeatable), RemoveKey(a|b), FireEarliestTimer} x delay x context x script, compared with a reference model (reference multiset + key set)",
 		Quick: eng.Bounds{PB: 0, Cap: 8000000}, Thorough: eng.Bounds{PB: 0},
 		Body: keyedRefHistory(6),
+	})
+	eng.Register(&eng.Scenario{
+		Name: "keyedref-history-logger", Props: []string{"C06"}, Det: true, Manual: true, NoRace: true, ObsNames: ops,
+		Doc:   "KeyedRefCount built by NewKeyedRefCountWithLogger with a release delay: every sequence of 4 operations, compared with the same reference model (the options apply whichever constructor is used)",
+		Quick: eng.Bounds{PB: 0}, Thorough: eng.Bounds{PB: 0},
+		Body: keyedRefHistoryOpt(4, true),
 	})
 	eng.Register(&eng.Scenario{
 		Name: "keyedref-history-deep", Props: []string{"C06"}, ThoroughOnly: true, Det: true, Manual: true, NoRace: true, ObsNames: ops,
